@@ -5,7 +5,7 @@ import ast
 
 from . import e2_formula as F
 from .core import AnchorError, Unsupported
-from .e1_srcmodel import dotted, walk_no_nested, parent, ancestors
+from .e1_srcmodel import dotted, walk_no_nested, parent, ancestors, utext
 from .e2_eval import Evaluator, is_unknown, need
 
 FRC = "pyyeti/frclim.py"
@@ -54,7 +54,7 @@ def r1_axis_roles(ctx):
                 ctx.check(shp == "(r,lf,r)", f"{q}: {st.targets[0].id} is allocated (n_interface, n_freq, n_interface)", st, shp)
     ctx.check(n >= 9, f"axis-role rule bound to {n} subscripts/allocations", FRC + ":1", nontrivial=False)
     fn = ctx.src.func(FRC, "calcAM")
-    t = ast.unparse(fn).replace(" ", "")
+    t = utext(fn)
     ok = "Acc[:,:,direc]=T@sol.a" in t and "sol=fs.fsolve(T.T@Frc,freq)" in t and "Frc[direc,:]=1.0" in t and "Frc[direc,:]=0.0" in t
     ctx.check(ok, "calcAM (recovery-matrix form): column `direc` of the accelerance is the boundary acceleration T a due to a unit force T^T e_direc at every frequency", fn)
     ok = "AM[:,j,:]=la.inv(Acc[:,j,:])" in t
@@ -71,14 +71,14 @@ def r1_axis_roles(ctx):
     ok = stores.get("accel[bset]") == "a" and stores.get("accel[qset]") == "sol.a"
     ctx.check(ok, "cb.cbtf (used by calcAM): boundary rows of the acceleration are the enforced acceleration itself, so the boundary force at 0 Hz is M_bb a "
                   "(rigid-body mass), not zero", cf, {k: v for k, v in stores.items() if k.startswith("accel")})
-    tt = ast.unparse(cf).replace(" ", "")
+    tt = utext(cf)
     ok = "frc=m[bset]@accel+b[bset]@veloc+k[bb]@displ[bset]" in tt
     ctx.check(ok, "cb.cbtf: the boundary force is formed from that acceleration", cf)
 
 
 def r2_ntfl(ctx):
     fn = ctx.src.func(FRC, "ntfl")
-    t = ast.unparse(fn).replace(" ", "")
+    t = utext(fn)
     ok = "TAM=SAM+LAM" in t
     ctx.check(ok, "ntfl: total apparent mass is the sum of source and load apparent masses", fn)
     loops = [n for n in fn.body if isinstance(n, ast.For)]
@@ -87,7 +87,7 @@ def r2_ntfl(ctx):
     Ms, Ml, As = F.sym("Ms"), F.sym("Ml"), F.sym("As")
 
     def sub(node, ev):
-        tt = ast.unparse(node).replace(" ", "")
+        tt = utext(node)
         return {"SAM[:,j,:]": Ms, "LAM[:,j,:]": Ml, "As[:,j]": As}.get(tt, NotImplemented)
 
     def call(node, ev):
@@ -104,7 +104,7 @@ def r2_ntfl(ctx):
         r = sub(node, ev)
         if r is not NotImplemented:
             return r
-        if ast.unparse(node).replace(" ", "") == "A[:,j]" and isinstance(node.ctx, ast.Load):
+        if utext(node) == "A[:,j]" and isinstance(node.ctx, ast.Load):
             for b_, i_, v_, s_ in reversed(ev.stores):
                 if b_ == "A":
                     return v_
